@@ -34,7 +34,7 @@ def compute_cook_scores(base_estimate, cdd_estimates, covariance_matrix):
         # solution to triangular system  delta_vector^T = chol * x
         # Below we solve for all delta-vectors in one line
         chol, islow = linalg.cho_factor(covariance_matrix)
-        delta_matrix = cdd_estimates - base_estimate
+        delta_matrix = (cdd_estimates - base_estimate)[covariance_matrix.columns]
         x = linalg.solve_triangular(chol, delta_matrix.transpose(), lower=islow, trans=1)
         return list(map(np.linalg.norm, x.transpose()))
     except Exception:
